@@ -126,6 +126,50 @@ def job_formula(variant, tier):
     return out
 
 
+def job_scaling(with_nugget, tier):
+    """CondSRF.get_scaling on an arbitrary kriging variance: the fluctuation added to the kriging estimate has exactly the
+    kriging variance: var_scale^2 var + nug_scale^2 nugget == krige_var (no upper clipping: unbiased kriging variances exceed var)"""
+    gs, kb = setup()
+    T = core.tier_timeout(tier)
+    v, n, kv0, kv1, l = sym.reals("var nug kvar0 kvar1 len")
+    wv = dict(var=v, nug=n, kvar0=kv0, kvar1=kv1)
+    rb = ("scaling", lambda vals: {"with_nugget": with_nugget, "values": vals})
+    out = []
+    tag = f"C07/scaling/{'nugget' if with_nugget else 'no_nugget'}"
+
+    def run():
+        sym.assume(v > 0)
+        sym.assume(l > 0)
+        sym.assume(kv0 >= 0)
+        sym.assume(kv1 >= 0)
+        if with_nugget:
+            sym.assume(n > 0)
+        UFModel = kstub.uf_model_class()
+        model = UFModel(dim=1, var=v, len_scale=l, nugget=(n if with_nugget else 0.0))
+        k = gs.krige.Ordinary(model, [[0.0, 1.0]], [0.5, -0.5])
+        csrf = gs.CondSRF(k, mode_no=2, seed=5)
+        csrf.generator.get_nugget = lambda shape: rnp.ones(shape)
+        vs, ng = csrf.get_scaling(rnp.array([kv0, kv1], dtype=object), (2,))
+        return rnp.asarray(vs, dtype=object).reshape(-1), (rnp.asarray(ng, dtype=object).reshape(-1) if with_nugget else None)
+
+    for pi, p in enumerate(explore(run, max_paths=32)):
+        base = f"{tag}/path{pi}"
+        if p.exc is not None:
+            out.append(rec(base, "error", detail=f"{p.exc!r} {p.tb}"))
+            continue
+        vs, ng = p.out
+        for i, kvi in enumerate((kv0, kv1)):
+            tot = lift(vs[i]) * lift(vs[i]) * v.e
+            conds = [lift(vs[i]) >= 0]
+            if with_nugget:
+                tot = tot + lift(ng[i]) * lift(ng[i]) * n.e
+                conds.append(lift(ng[i]) >= 0)
+                # the smooth part carries at most krige_var - nugget (the nugget part is white noise)
+                conds.append(lift(vs[i]) * lift(vs[i]) * v.e == z3.If(kvi.e - n.e >= 0, kvi.e - n.e, 0))
+            out.append(prove(f"{base}/point{i}: var_scale^2 var (+ nug_scale^2 nugget) == kriging variance, scales >= 0", p.conds, z3.And(conds + [tot == kvi.e]), T, witness_vars=wv, replay=rb, pairwise=False))
+    return out
+
+
 OPS = ["call_same", "call_newseed", "call_newpos", "cond_values", "cond_positions", "model_refresh", "mean", "trend"]
 
 
@@ -227,6 +271,7 @@ def job_history(variant, seq, tier, dim=1):
 
 def jobs(tier, seed):
     js = [Job("formula-ordinary", job_formula, "ordinary", tier), Job("formula-simple", job_formula, "simple", tier)]
+    js += [Job("scaling-no_nugget", job_scaling, False, tier), Job("scaling-nugget", job_scaling, True, tier)]
     for variant in ("ordinary", "simple"):
         ops = [o for o in OPS if not (o == "mean" and variant != "simple")]
         once = ("cond_values", "cond_positions", "model_refresh", "mean")  # one symbolic replacement value each
@@ -392,4 +437,22 @@ def replay_history(inputs):
     return bool(ok), f"{variant} seq={seq} after history={np.asarray(final).tolist()} fresh={np.asarray(fresh).tolist()}"
 
 
-REPLAY = {"formula": replay_formula, "history": replay_history}
+def replay_scaling(inputs):
+    import numpy as np
+    import gstools as gs
+
+    v = inputs.get("values") or {}
+    wn = bool(inputs["with_nugget"])
+    var, nug = abs(_val(v, "var", 1.3)) or 1.3, (abs(_val(v, "nug", 0.4)) or 0.4) if wn else 0.0
+    kv = np.array([abs(_val(v, "kvar0", 0.6)), abs(_val(v, "kvar1", 2.9)), 0.0, 0.5 * var, 1.7 * var + nug, 3.0 * (var + nug)])
+    model = gs.Exponential(dim=1, var=var, len_scale=1.5, nugget=nug)
+    k = gs.krige.Ordinary(model, [[0.0, 1.0]], [0.5, -0.5])
+    csrf = gs.CondSRF(k, mode_no=10, seed=5)
+    csrf.generator.get_nugget = lambda shape: np.ones(shape)
+    vs, ng = csrf.get_scaling(kv.copy(), kv.shape)
+    tot = np.asarray(vs) ** 2 * var + (np.asarray(ng) ** 2 * nug if wn else 0.0)
+    ok = np.allclose(tot, kv, rtol=1e-10, atol=1e-12) and np.all(np.asarray(vs) >= 0)
+    return bool(ok), f"var={var} nugget={nug} kriging variances={kv.tolist()} reproduced variance={np.asarray(tot).tolist()}"
+
+
+REPLAY = {"formula": replay_formula, "history": replay_history, "scaling": replay_scaling}
